@@ -13,6 +13,15 @@
 //      being readable (fread interposed: call k fails with a kernel error; /proc/self/mem; a directory)
 //  (f) open() on an object that is already open (with and without unflushed bytes), open(RW) with reads and overwriting writes, size() of the
 //      writing object, a piece longer than the stdio buffer, pieces that form a UTF-8 BOM together
+// Extension after a missed seeded change (seeded/C17-4: Directory::copy left a hole for every all-zero 64 KiB block and so lost a zero tail
+// that ends at a block boundary): every family above uses ONE position-dependent content per size, so a path that is taken only for
+// special content was never taken.
+//  (g) content classes x sizes: 23 classes (all 00 / all 41 / all FF, zero tail of 1 or 2 copy blocks / of one stdio buffer / of one byte, zero head,
+//      zero middle block, zeros but the last / first byte, a block equal to the previous block, ^Z at every block start, CR LF across every block
+//      boundary, only LF / CR LF / CR, identical lines) x sizes around 1, 255, 4096 and every multiple of 65536 up to 4 (64) blocks
+//      x { every byte writer and a POSIX writer that leaves real holes -> every reader } and x { copy, move by rename, move by EXDEV fallback }
+//      x 7 destinations (new, longer, directory, and four existing files of the same size: identical, differing in the last / first / middle byte)
+//      x 2 APIs x source stored densely / with real holes.
 // Oracle side uses POSIX calls and std:: only.
 #include <asl/File.h>
 #include <asl/TextFile.h>
@@ -22,6 +31,8 @@
 #include <unistd.h>
 #include <errno.h>
 #include <dlfcn.h>
+#include <dirent.h>
+#include <sys/resource.h>
 #include "vf.h"
 #include "aslx.h"
 using namespace asl;
@@ -79,6 +90,22 @@ static void p_write(const std::string& p, const std::string& d) {
 	if (fd < 0) { fprintf(stderr, "c17: cannot create %s\n", p.c_str()); _exit(2); }
 	size_t o = 0;
 	while (o < d.size()) { ssize_t n = ::write(fd, d.data() + o, d.size() - o); if (n <= 0) { fprintf(stderr, "c17: short write on %s\n", p.c_str()); _exit(2); } o += (size_t)n; }
+	::close(fd);
+}
+// the same bytes, but every 4096-byte page of zeros is left out (a hole where the file system supports holes); *holes = the file really has fewer blocks than bytes
+static bool zero_range(const std::string& d, size_t off, size_t len) { for (size_t i = 0; i < len; i++) if (d[off + i]) return false; return true; }
+static bool has_zero_page(const std::string& d) { for (size_t o = 0; o + 4096 <= d.size(); o += 4096) if (zero_range(d, o, 4096)) return true; return false; }
+static void p_write_sparse(const std::string& p, const std::string& d, bool* holes) {
+	int fd = ::open(p.c_str(), O_WRONLY | O_CREAT | O_TRUNC, 0600);
+	if (fd < 0) { fprintf(stderr, "c17: cannot create %s\n", p.c_str()); _exit(2); }
+	for (size_t o = 0; o < d.size(); o += 4096) {
+		size_t len = std::min((size_t)4096, d.size() - o);
+		if (len == 4096 && zero_range(d, o, len)) continue;
+		if (::pwrite(fd, d.data() + o, len, (off_t)o) != (ssize_t)len) { fprintf(stderr, "c17: short write on %s\n", p.c_str()); _exit(2); }
+	}
+	if (::ftruncate(fd, (off_t)d.size()) != 0) { fprintf(stderr, "c17: cannot set the length of %s\n", p.c_str()); _exit(2); }
+	struct stat st;
+	if (holes) *holes = ::fstat(fd, &st) == 0 && (long long)st.st_blocks * 512 < (long long)d.size();
 	::close(fd);
 }
 static bool p_exists(const std::string& p) { struct stat st; return ::stat(p.c_str(), &st) == 0; }
@@ -180,6 +207,9 @@ static int W_CHUNK_EXACT, W_CHUNK_MULTI, W_CRLF_SPLIT_BY_CHUNK, W_NOFINAL, W_EMP
 	W_COPY_ALIAS, W_MOVE_ALIAS, W_MOVE_ALIAS_EXDEV, W_COPY_DEVFULL, W_FREAD_FAULT, W_COPY_READ_FAULT, W_MOVE_READ_FAULT, W_COPY_UNREADABLE_SOURCE,
 	W_INFO_FROM_LISTING, W_INFO_COPIED, W_INFO_REPOINTED, W_BOMX, W_BOM_OVER_STDIO_BUFFER, W_BOM_RESULT_ON_HEAP, W_BOM_INNER_FEFF, W_LINE_OVER_4096, W_LINE_OVER_65536,
 	W_READLINE_CHAR, W_READLINE_BOOL_IDIOM, W_READLINE_FALSE_AT_END,
+	// content classes
+	W_CC_READ, W_CC_READ_TEXT, W_CC_READ_ZTAIL_AT_BLOCK_END, W_CC_READ_HOLES, W_CC_COPY, W_CC_MOVE_RENAME, W_CC_MOVE_EXDEV, W_CC_ZERO_LAST_BLOCK, W_CC_ZERO_INNER_BLOCK, W_CC_BLOCK_REPEATED, W_CC_CONST_BLOCK,
+	W_CC_HOLES, W_CC_DEST_IDENTICAL, W_CC_DEST_ONE_BYTE_DIFFERS, W_CC_CTRLZ_BLOCK_START, W_CC_CRLF_ACROSS_BLOCKS, W_CC_IDENTICAL_LINES,
 	W_H_OPEN_WHILE_OPEN, W_H_OPEN_WHILE_UNFLUSHED, W_H_SIZE_WHILE_WRITING, W_H_SIZE_CACHE_OUTDATED, W_H_RW_READ, W_H_RW_OVERWRITE, W_H_RW_EXTEND, W_H_BOM_LED, W_H_OVER_STDIO_BUFFER;
 
 static void bad(const char* sig, const std::string& desc, const std::string& kase) { vf::violation(sig, desc, kase); }
@@ -560,23 +590,157 @@ static void check_bin(long size, int pat, int writer) {
 	::unlink(path.c_str());
 }
 
+// ---------------------------------------------------------------- (g) content classes
+// Every other family writes ONE position-dependent content per size, so a path of the library that is taken only for special content
+// (a block of zeros left as a hole, a block equal to the previous one, a constant block, ^Z / CR LF at a block edge, a destination that
+// "already looks the same") is never taken there. Here the size grid is crossed with a fixed table of content classes.
+static const long CB = 65536; // copy block of Directory::copy
+static unsigned char nzc(size_t i) { return (unsigned char)(1 + (((((uint32_t)i * 2654435761u) >> 13) ^ ((uint32_t)(i >> 16) * 37u)) % 255)); } // never 00, differs from block to block
+enum { CK_CYCLE, CK_ZTAIL, CK_ZHEAD, CK_ZMID, CK_ZBUTLAST, CK_ZBUTFIRST, CK_REPEAT, CK_LINES };
+struct CClass { const char* name; int kind; long u; const char* cyc; };
+static const CClass CC[] = {
+	{ "all bytes 00", CK_CYCLE, 1, "\x00" },
+	{ "all bytes 41", CK_CYCLE, 1, "A" },
+	{ "all bytes FF", CK_CYCLE, 1, "\xff" },
+	{ "non-zero bytes, the last 65536 bytes zero", CK_ZTAIL, 65536, 0 },
+	{ "non-zero bytes, the last 131072 bytes zero", CK_ZTAIL, 131072, 0 },
+	{ "the first 65536 bytes zero, then non-zero bytes", CK_ZHEAD, 65536, 0 },
+	{ "non-zero bytes, bytes 65536..131071 zero", CK_ZMID, 65536, 0 },
+	{ "non-zero bytes, the last 4096 bytes zero", CK_ZTAIL, 4096, 0 },
+	{ "the first 4096 bytes zero, then non-zero bytes", CK_ZHEAD, 4096, 0 },
+	{ "non-zero bytes, bytes 4096..8191 zero", CK_ZMID, 4096, 0 },
+	{ "non-zero bytes, the last byte zero", CK_ZTAIL, 1, 0 },
+	{ "the first byte zero, then non-zero bytes", CK_ZHEAD, 1, 0 },
+	{ "zeros, the last byte 01", CK_ZBUTLAST, 1, 0 },
+	{ "byte 01, then zeros", CK_ZBUTFIRST, 1, 0 },
+	{ "one non-zero 65536-byte block repeated", CK_REPEAT, 65536, 0 },
+	{ "one non-zero 4096-byte block repeated", CK_REPEAT, 4096, 0 },
+	{ "1A 00 0A 0D repeated (^Z first and CR last in every block)", CK_CYCLE, 4, "\x1a\x00\x0a\x0d" },
+	{ "0A 1A FF 0D repeated (CR LF across every block boundary)", CK_CYCLE, 4, "\x0a\x1a\xff\x0d" },
+	{ "only LF", CK_CYCLE, 1, "\n" },
+	{ "only CR LF", CK_CYCLE, 2, "\r\n" },
+	{ "only CR", CK_CYCLE, 1, "\r" },
+	{ "identical lines of 253 characters + LF", CK_LINES, 254, "\n" },
+	{ "identical lines of 254 characters + CR LF", CK_LINES, 256, "\r\n" },
+};
+enum { NCC = sizeof CC / sizeof *CC };
+static std::string cc_content(int cls, long size) {
+	const CClass& c = CC[cls];
+	size_t n = (size_t)size, u = (size_t)c.u;
+	std::string s(n, 0);
+	for (size_t i = 0; i < n; i++) {
+		unsigned char b = 0;
+		switch (c.kind) {
+		case CK_CYCLE: b = (unsigned char)c.cyc[i % u]; break;
+		case CK_ZTAIL: b = i + u >= n ? 0 : nzc(i); break;
+		case CK_ZHEAD: b = i < u ? 0 : nzc(i); break;
+		case CK_ZMID: b = i >= u && i < 2 * u ? 0 : nzc(i); break;
+		case CK_ZBUTLAST: b = i + 1 == n ? 1 : 0; break;
+		case CK_ZBUTFIRST: b = i == 0 ? 1 : 0; break;
+		case CK_REPEAT: b = nzc(i % u); break;
+		case CK_LINES: { size_t j = i % u, e = strlen(c.cyc); b = j >= u - e ? (unsigned char)c.cyc[j - (u - e)] : (unsigned char)fillc(j); break; }
+		}
+		s[i] = (char)b;
+	}
+	return s;
+}
+static const long CC_SIZES[] = { 1, 2, 254, 255, 256, 4095, 4096, 4097, 8192, 12288, 65535, 65536, 65537, 131071, 131072, 131073, 196608, 196609, 262144,
+	/* thorough */ 262145, 524288, 1048576, 1048577, 4194304 };
+enum { NCC_SIZE_QUICK = 19, NCC_SIZE_ALL = sizeof CC_SIZES / sizeof *CC_SIZES };
+// the (class, size) pairs that are pairwise different contents (at small sizes many classes coincide: the first one is kept)
+struct CCJob { int cls; long size; };
+static std::vector<CCJob> cc_jobs(bool thorough) {
+	std::vector<CCJob> v;
+	for (int si = 0; si < (thorough ? (int)NCC_SIZE_ALL : (int)NCC_SIZE_QUICK); si++) {
+		std::vector<std::string> kept;
+		for (int c = 0; c < NCC; c++) {
+			std::string d = cc_content(c, CC_SIZES[si]);
+			if (std::find(kept.begin(), kept.end(), d) != kept.end()) continue;
+			kept.push_back(d);
+			CCJob j = { c, CC_SIZES[si] }; v.push_back(j);
+		}
+	}
+	return v;
+}
+static std::string cc_desc(int cls, long size, bool sparse) { return fmt("%ld bytes (%s%s)", size, CC[cls].name, sparse ? "; the source is stored with holes" : ""); }
+// readers: the content written by every byte writer (and by POSIX, densely / leaving holes) -> every reader
+static const int CC_WRITERS[] = { -1, -2, WR_FPUT, WR_FWRITE, WR_FSTREAM_BA, WR_FSTREAM_S, WR_TWRITE, WR_FAPPEND_PARTS }; // -1 POSIX write, -2 POSIX pwrite leaving holes
+enum { NCC_WRITER = sizeof CC_WRITERS / sizeof *CC_WRITERS };
+static void check_cc_read(int cls, long size, int writer) {
+	std::string kase = fmt("ccr:%d:%ld:%d", cls, size, writer);
+	vf::cur(kase);
+	vf::asan_clear();
+	std::string d = cc_content(cls, size);
+	if (writer == -2 && !has_zero_page(d)) return;
+	std::string path = wdir() + "/c.bin";
+	::unlink(path.c_str());
+	bool holes = false;
+	if (writer == -1) p_write(path, d);
+	else if (writer == -2) p_write_sparse(path, d, &holes);
+	else { std::string werr = do_write(writer, path, d); if (!werr.empty()) bad("write_result", std::string(WRITER_NAME[writer]) + " of " + cc_desc(cls, size, false) + ": " + werr, kase); }
+	ReadOpts ro = { true, size <= (vf::opt.thorough() ? 300000 : 70000), size <= 700 }; // the line readers up to 65537 (quick) / 262145 bytes (thorough)
+	check_readers(path, d, ro, kase);
+	vf::add(W_CC_READ); vf::add(C_DIST);
+	if (holes) vf::add(W_CC_READ_HOLES);
+	if (!has_nul(d)) vf::add(W_CC_READ_TEXT);
+	if (CC[cls].kind == CK_LINES && size > 2 * CC[cls].u) vf::add(W_CC_IDENTICAL_LINES);
+	if (size % 4096 == 0 && zero_range(d, (size_t)size - 4096, 4096)) vf::add(W_CC_READ_ZTAIL_AT_BLOCK_END);
+	asan_check(std::string(writer < 0 ? "POSIX write" : WRITER_NAME[writer]) + " + readers of " + CC[cls].name, kase);
+	::unlink(path.c_str());
+}
 // ---------------------------------------------------------------- (e) copy / move
 static const long COPY_SIZES[] = { 0, 1, 65535, 65536, 65537, 131072, 131073 };
 enum { NCOPYSIZE = 7 };
 // destinations D_SAME_PATH.. resolve to the source file itself
-enum { D_NEW, D_EXISTING_LONGER, D_DIR, D_DIR_WITH_SAME_NAME, D_DEVFULL, D_SAME_PATH, D_OWN_DIR, D_HARDLINK, D_SYMLINK, D_DOT_ALIAS, NDEST };
+// D_EX_*: only in the content-class family (g): an existing file of the SAME size (and the same second of modification) that is identical / differs in one byte
+enum { D_NEW, D_EXISTING_LONGER, D_DIR, D_DIR_WITH_SAME_NAME, D_DEVFULL, D_SAME_PATH, D_OWN_DIR, D_HARDLINK, D_SYMLINK, D_DOT_ALIAS, NDEST,
+	D_EX_SAME = NDEST, D_EX_LASTDIFF, D_EX_FIRSTDIFF, D_EX_MIDDIFF, NDEST_ALL };
 static const char* DEST_NAME[] = { "new file name", "existing longer file", "existing directory", "existing directory holding a file of the same name", "/dev/full (destination device has no space)",
-	"the source path itself", "the directory that holds the source", "a hard link to the source", "a symbolic link to the source", "the source path spelled dir/./name" };
+	"the source path itself", "the directory that holds the source", "a hard link to the source", "a symbolic link to the source", "the source path spelled dir/./name",
+	"an existing file with the same content", "an existing file of the same size that differs in the last byte", "an existing file of the same size that differs in the first byte", "an existing file of the same size that differs in the middle byte" };
 static bool dest_is_source(int dest) { return dest >= D_SAME_PATH && dest <= D_DOT_ALIAS; }
-static void rm_tree(const std::string& d) { std::string c = "rm -rf '" + d + "'"; if (system(c.c_str())) {} }
-struct CopyEnv { std::string root, src, to, final_dst, content, old; bool dst_preexists; };
-static bool copy_env(long size, int dest, CopyEnv& e) {
+// content-class family: what a copy / move case exercises (how: 0 copy, 1 move by rename, 2 move by copy and delete)
+static void cc_witness(const std::string& c, bool holes, int dest, int how) {
+	vf::add(how == 0 ? W_CC_COPY : how == 1 ? W_CC_MOVE_RENAME : W_CC_MOVE_EXDEV);
+	if (holes) vf::add(W_CC_HOLES);
+	if (dest == D_EX_SAME) vf::add(W_CC_DEST_IDENTICAL);
+	if (dest == D_EX_LASTDIFF || dest == D_EX_FIRSTDIFF || dest == D_EX_MIDDIFF) vf::add(W_CC_DEST_ONE_BYTE_DIFFERS);
+	if (how == 1) return; // the bytes do not pass through the copy loop
+	size_t n = c.size();
+	bool zl = false, zi = false, rp = false, cb = false, cz = false, crlf = false;
+	for (size_t o = 0; o + CB <= n; o += CB) {
+		bool z = zero_range(c, o, CB);
+		if (z && o + CB == n) zl = true;  // the loop ends with a read of 0 bytes behind a block of zeros
+		if (z && o + CB < n) zi = true;
+		if (!z && o >= (size_t)CB && memcmp(c.data() + o, c.data() + o - CB, CB) == 0) rp = true;
+		if (!z && c[o] == c[o + CB - 1] && memcmp(c.data() + o, c.data() + o + 1, CB - 1) == 0) cb = true;
+	}
+	for (size_t o = 0; o < n; o += CB) { if ((unsigned char)c[o] == 0x1a) cz = true; if (o && c[o - 1] == '\r' && c[o] == '\n') crlf = true; }
+	if (zl) vf::add(W_CC_ZERO_LAST_BLOCK);
+	if (zi) vf::add(W_CC_ZERO_INNER_BLOCK);
+	if (rp) vf::add(W_CC_BLOCK_REPEATED);
+	if (cb) vf::add(W_CC_CONST_BLOCK);
+	if (cz) vf::add(W_CC_CTRLZ_BLOCK_START);
+	if (crlf) vf::add(W_CC_CRLF_ACROSS_BLOCKS);
+}
+static void rm_tree(const std::string& d) { // no shell: the content-class family makes tens of thousands of scratch trees
+	struct stat st;
+	if (::lstat(d.c_str(), &st) != 0) return;
+	if (!S_ISDIR(st.st_mode)) { ::unlink(d.c_str()); return; }
+	std::vector<std::string> names;
+	if (DIR* dir = opendir(d.c_str())) { while (dirent* en = readdir(dir)) { std::string n = en->d_name; if (n != "." && n != "..") names.push_back(n); } closedir(dir); }
+	for (size_t i = 0; i < names.size(); i++) rm_tree(d + "/" + names[i]);
+	::rmdir(d.c_str());
+}
+struct CopyEnv { std::string root, src, to, final_dst, content, old; bool dst_preexists, holes; };
+static bool copy_env(long size, int dest, CopyEnv& e, const std::string* content = 0, bool sparse = false) {
 	e.root = wdir() + "/cp";
 	rm_tree(e.root);
 	mkdir(e.root.c_str(), 0700);
 	e.src = e.root + "/src.bin";
-	e.content = bin_pattern((size_t)size, 0);
-	p_write(e.src, e.content);
+	e.content = content ? *content : bin_pattern((size_t)size, 0);
+	e.holes = false;
+	if (sparse) p_write_sparse(e.src, e.content, &e.holes); else p_write(e.src, e.content);
 	e.old = std::string((size_t)size + 1000, 'J');
 	e.dst_preexists = false;
 	switch (dest) {
@@ -590,21 +754,28 @@ static bool copy_env(long size, int dest, CopyEnv& e) {
 	case D_HARDLINK: e.to = e.final_dst = e.root + "/hl.bin"; if (::link(e.src.c_str(), e.to.c_str()) != 0) return false; e.dst_preexists = true; break;
 	case D_SYMLINK: e.to = e.final_dst = e.root + "/sl.bin"; if (::symlink("src.bin", e.to.c_str()) != 0) return false; e.dst_preexists = true; break;
 	case D_DOT_ALIAS: e.to = e.final_dst = e.root + "/./src.bin"; e.dst_preexists = true; break;
+	case D_EX_SAME: case D_EX_LASTDIFF: case D_EX_FIRSTDIFF: case D_EX_MIDDIFF:
+		if (size == 0 && dest != D_EX_SAME) return false;
+		e.old = e.content;
+		if (dest != D_EX_SAME) { size_t at = dest == D_EX_LASTDIFF ? (size_t)size - 1 : dest == D_EX_FIRSTDIFF ? 0 : (size_t)size / 2; e.old[at] = (char)(e.old[at] ^ 0x55); }
+		e.to = e.final_dst = e.root + "/dst.bin"; p_write(e.to, e.old); e.dst_preexists = true; break;
 	}
 	return true;
 }
-static void check_copy(long size, int dest, int api) {
-	std::string kase = fmt("copy:%ld:%d:%d", size, dest, api);
+static void check_copy(long size, int dest, int api, int cls = -1, bool sparse = false) {
+	std::string kase = cls < 0 ? fmt("copy:%ld:%d:%d", size, dest, api) : fmt("ccc:%d:%ld:%d:%d:%d", cls, size, dest, api, (int)sparse);
 	vf::cur(kase);
 	vf::asan_clear();
 	CopyEnv e;
-	if (!copy_env(size, dest, e)) return;
+	std::string ccd, szs = fmt("%ld bytes", size);
+	if (cls >= 0) { ccd = cc_content(cls, size); szs = cc_desc(cls, size, sparse); if (sparse && !has_zero_page(ccd)) return; }
+	if (!copy_env(size, dest, e, cls >= 0 ? &ccd : 0, sparse)) return;
 	bool ok = api == 0 ? Directory::copy(vfx::A(e.src), vfx::A(e.to)) : File(vfx::A(e.src)).copy(vfx::A(e.to));
 	vf::add(C_EVAL); vf::add(C_DIST);
 	std::string s, d;
 	const char* an = api == 0 ? "Directory::copy" : "File::copy";
 	if (!p_read(e.src, s) || s != e.content)
-		bad(dest_is_source(dest) ? "copy_onto_itself" : "copy_source_changed", fmt("%s of %ld bytes to %s: the source no longer holds its content (%s; the call returned %s)", an, size, DEST_NAME[dest], s.empty() ? "it is empty or missing" : firstdiff(s, e.content).c_str(), ok ? "true" : "false"), kase);
+		bad(dest_is_source(dest) ? "copy_onto_itself" : "copy_source_changed", fmt("%s of %s to %s: the source no longer holds its content (%s; the call returned %s)", an, szs.c_str(), DEST_NAME[dest], s.empty() ? "it is empty or missing" : firstdiff(s, e.content).c_str(), ok ? "true" : "false"), kase);
 	if (dest_is_source(dest)) {
 		// the destination is the source: whatever the call answers, the content must still be there (checked above)
 		vf::add(W_COPY_ALIAS);
@@ -613,9 +784,10 @@ static void check_copy(long size, int dest, int api) {
 		// nothing can be stored there: a copy that reports success did not preserve the content anywhere but in the source
 		if (ok && size > 0) bad("copy_reports_success_on_write_error", fmt("%s of %ld bytes to /dev/full (every write fails with ENOSPC) returned true", an, size), kase);
 	} else {
-		if (!ok) bad("copy_result", fmt("%s of %ld bytes to %s returned false", an, size, DEST_NAME[dest]), kase);
-		if (!p_read(e.final_dst, d)) bad("copy_content", fmt("%s of %ld bytes to %s: destination %s does not exist", an, size, DEST_NAME[dest], e.final_dst.c_str()), kase);
-		else if (d != e.content) bad("copy_content", fmt("%s of %ld bytes to %s: ", an, size, DEST_NAME[dest]) + firstdiff(d, e.content), kase);
+		if (!ok) bad("copy_result", fmt("%s of %s to %s returned false", an, szs.c_str(), DEST_NAME[dest]), kase);
+		if (!p_read(e.final_dst, d)) bad("copy_content", fmt("%s of %s to %s: destination %s does not exist", an, szs.c_str(), DEST_NAME[dest], e.final_dst.c_str()), kase);
+		else if (d != e.content) bad("copy_content", fmt("%s of %s to %s%s: ", an, szs.c_str(), DEST_NAME[dest], ok ? " returned true" : "") + firstdiff(d, e.content), kase);
+		if (cls >= 0) cc_witness(e.content, e.holes, dest, 0);
 		if (size > 65536) vf::add(W_COPY_MULTIBLOCK);
 		if (size > 0 && size % 65536 == 0) vf::add(W_COPY_EXACT_BLOCK);
 		if (dest == D_DIR || dest == D_DIR_WITH_SAME_NAME) vf::add(W_COPY_TO_DIR);
@@ -633,13 +805,15 @@ static bool move_case_exists(int dest, int rmode) {
 	if (dest_is_source(dest)) return rmode == 0; // the same directory entry / a hard link is never on another file system
 	return true;
 }
-static void check_move(long size, int dest, int rmode, int api) {
-	std::string kase = fmt("move:%ld:%d:%d:%d", size, dest, rmode, api);
+static void check_move(long size, int dest, int rmode, int api, int cls = -1, bool sparse = false) {
+	std::string kase = cls < 0 ? fmt("move:%ld:%d:%d:%d", size, dest, rmode, api) : fmt("ccm:%d:%ld:%d:%d:%d:%d", cls, size, dest, rmode, api, (int)sparse);
 	vf::cur(kase);
 	vf::asan_clear();
 	CopyEnv e;
 	if (!move_case_exists(dest, rmode)) return;
-	if (!copy_env(size, dest, e)) return;
+	std::string ccd, szs = fmt("%ld bytes", size);
+	if (cls >= 0) { ccd = cc_content(cls, size); szs = cc_desc(cls, size, sparse); if (sparse && !has_zero_page(ccd)) return; }
+	if (!copy_env(size, dest, e, cls >= 0 ? &ccd : 0, sparse)) return;
 	int calls0 = g_rename_calls;
 	g_rename_errno = RENAME_ERRNO[rmode];
 	bool ok = api == 0 ? Directory::move(vfx::A(e.src), vfx::A(e.to)) : File(vfx::A(e.src)).move(vfx::A(e.to));
@@ -648,7 +822,7 @@ static void check_move(long size, int dest, int rmode, int api) {
 	if (intercepted) vf::add(W_RENAME_INTERCEPTED);
 	vf::add(C_EVAL); vf::add(C_DIST);
 	const char* an = api == 0 ? "Directory::move" : "File::move";
-	std::string what = fmt("%s of %ld bytes to %s when %s", an, size, DEST_NAME[dest], RENAME_NAME[rmode]);
+	std::string what = fmt("%s of %s to %s when %s", an, szs.c_str(), DEST_NAME[dest], RENAME_NAME[rmode]);
 	std::string s, d;
 	bool src_there = p_read(e.src, s), src_ok = src_there && s == e.content;
 	if (dest == D_DEVFULL) {
@@ -676,6 +850,7 @@ static void check_move(long size, int dest, int rmode, int api) {
 		if (e.dst_preexists ? (!dst_there || d != e.old) : dst_there) bad("move_content", what + ": the destination was modified although the move was refused", kase);
 	} else {
 		if (intercepted) vf::add(rmode == 0 ? W_MOVE_RENAME_OK : W_MOVE_EXDEV);
+		if (intercepted && cls >= 0) cc_witness(e.content, e.holes, dest, rmode == 0 ? 1 : 2);
 		if (!dst_ok && !src_ok) bad("move_lost_content", what + ": neither source nor destination holds the content" + (dst_there ? "; destination: " + firstdiff(d, e.content) : std::string("; destination missing")), kase);
 		else if (!dst_ok) bad("move_content", what + ": " + (dst_there ? "destination differs: " + firstdiff(d, e.content) : std::string("destination missing, source untouched")) + (ok ? " (returned true)" : ""), kase);
 		else {
@@ -1035,10 +1210,18 @@ static void run_case(const std::string& k) {
 	else if (k.compare(0, 8, "copysrc:") == 0) { int sk, d, a; if (sscanf(k.c_str() + 8, "%d:%d:%d", &sk, &d, &a) == 3) check_badsource(sk, d, a); }
 	else if (k.compare(0, 4, "bom:") == 0) { int e, l, i, v; if (sscanf(k.c_str() + 4, "%d:%d:%d:%d", &e, &l, &i, &v) == 4) check_bom(e, l, i, v); }
 	else if (k.compare(0, 4, "bin:") == 0) { long s; int p, w; if (sscanf(k.c_str() + 4, "%ld:%d:%d", &s, &p, &w) == 3) check_bin(s, p, w); }
+	else if (k.compare(0, 4, "ccr:") == 0) { int c, w; long s; if (sscanf(k.c_str() + 4, "%d:%ld:%d", &c, &s, &w) == 3 && c >= 0 && c < NCC) check_cc_read(c, s, w); }
+	else if (k.compare(0, 4, "ccc:") == 0) { int c, d, a, sp; long s; if (sscanf(k.c_str() + 4, "%d:%ld:%d:%d:%d", &c, &s, &d, &a, &sp) == 5 && c >= 0 && c < NCC) check_copy(s, d, a, c, sp != 0); }
+	else if (k.compare(0, 4, "ccm:") == 0) { int c, d, r, a, sp; long s; if (sscanf(k.c_str() + 4, "%d:%ld:%d:%d:%d:%d", &c, &s, &d, &r, &a, &sp) == 6 && c >= 0 && c < NCC) check_move(s, d, r, a, c, sp != 0); }
 	else if (k.compare(0, 5, "copy:") == 0) { long s; int d, a; if (sscanf(k.c_str() + 5, "%ld:%d:%d", &s, &d, &a) == 3) check_copy(s, d, a); }
 	else if (k.compare(0, 5, "move:") == 0) { long s; int d, r, a; if (sscanf(k.c_str() + 5, "%ld:%d:%d:%d", &s, &d, &r, &a) == 4) check_move(s, d, r, a); }
 }
 
+static double cpu_s() {
+	double t = 0; struct rusage ru; int who[] = { RUSAGE_SELF, RUSAGE_CHILDREN };
+	for (int i = 0; i < 2; i++) if (getrusage(who[i], &ru) == 0) t += ru.ru_utime.tv_sec + ru.ru_stime.tv_sec + (ru.ru_utime.tv_usec + ru.ru_stime.tv_usec) / 1e6;
+	return t;
+}
 int main(int argc, char** argv) {
 	vf::init(argc, argv, "C17", "c17_files");
 	C_EVAL = vf::counter("evaluations"); C_DIST = vf::counter("distinct_nontrivial");
@@ -1062,11 +1245,21 @@ int main(int argc, char** argv) {
 	W_READLINE_CHAR = vf::counter("w.readline_char_loops"); W_READLINE_BOOL_IDIOM = vf::counter("w.readline_bool_idiom_loops"); W_READLINE_FALSE_AT_END = vf::counter("w.readline_returned_false");
 	W_H_OPEN_WHILE_OPEN = vf::counter("w.hist_open_on_open_object"); W_H_OPEN_WHILE_UNFLUSHED = vf::counter("w.hist_open_on_object_with_unflushed_bytes"); W_H_SIZE_WHILE_WRITING = vf::counter("w.hist_size_of_writing_object");
 	W_H_SIZE_CACHE_OUTDATED = vf::counter("w.hist_size_asked_again_after_content_changed"); W_H_RW_READ = vf::counter("w.hist_rw_read"); W_H_RW_OVERWRITE = vf::counter("w.hist_rw_overwrite"); W_H_RW_EXTEND = vf::counter("w.hist_rw_write_behind_end");
+	W_CC_READ = vf::counter("w.cc_written_and_read_back"); W_CC_READ_TEXT = vf::counter("w.cc_nul_free_content_through_text_readers"); W_CC_READ_ZTAIL_AT_BLOCK_END = vf::counter("w.cc_read_zero_page_at_the_very_end");
+	W_CC_READ_HOLES = vf::counter("w.cc_read_file_with_real_holes"); W_CC_COPY = vf::counter("w.cc_copy"); W_CC_MOVE_RENAME = vf::counter("w.cc_move_by_rename"); W_CC_MOVE_EXDEV = vf::counter("w.cc_move_exdev_fallback");
+	W_CC_ZERO_LAST_BLOCK = vf::counter("w.cc_copy_loop_last_whole_block_zero_size_exact_multiple"); W_CC_ZERO_INNER_BLOCK = vf::counter("w.cc_copy_loop_zero_block_followed_by_data");
+	W_CC_BLOCK_REPEATED = vf::counter("w.cc_copy_loop_block_equal_to_previous"); W_CC_CONST_BLOCK = vf::counter("w.cc_copy_loop_constant_nonzero_block"); W_CC_HOLES = vf::counter("w.cc_copy_source_with_real_holes");
+	W_CC_DEST_IDENTICAL = vf::counter("w.cc_destination_already_identical"); W_CC_DEST_ONE_BYTE_DIFFERS = vf::counter("w.cc_destination_same_size_one_byte_differs");
+	W_CC_CTRLZ_BLOCK_START = vf::counter("w.cc_copy_loop_ctrl_z_first_in_block"); W_CC_CRLF_ACROSS_BLOCKS = vf::counter("w.cc_copy_loop_cr_lf_across_blocks"); W_CC_IDENTICAL_LINES = vf::counter("w.cc_identical_lines");
 	W_H_BOM_LED = vf::counter("w.hist_content_led_by_utf8_bom"); W_H_OVER_STDIO_BUFFER = vf::counter("w.hist_content_over_4096");
 	bool T = vf::opt.thorough();
 	HistSys hs;
 	std::string phases; double t_phase = vf::now_s();
-	auto phase_done = [&](const char* name) { double t = vf::now_s(); phases += fmt("%s\"%s\": %.1f", phases.empty() ? "" : ", ", name, t - t_phase); t_phase = t; vf::setinfo("phase_wall_s", "{" + phases + "}"); };
+	std::string cphases; double c_phase = cpu_s();
+	auto phase_done = [&](const char* name) {
+		double t = vf::now_s(); phases += fmt("%s\"%s\": %.1f", phases.empty() ? "" : ", ", name, t - t_phase); t_phase = t; vf::setinfo("phase_wall_s", "{" + phases + "}");
+		double c = cpu_s(); cphases += fmt("%s\"%s\": %.1f", cphases.empty() ? "" : ", ", name, c - c_phase); c_phase = c; vf::setinfo("phase_cpu_s", "{" + cphases + "}"); // user + system, this process and its reaped workers
+	};
 	if (vf::opt.replay) {
 		const std::string& k = vf::opt.kase;
 		vf::parallel(1, [&](uint64_t) {
@@ -1180,6 +1373,26 @@ int main(int argc, char** argv) {
 		vf::parallel((uint64_t)NBADSRC * 3 * 2, [&](uint64_t i) { int rd[] = { D_NEW, D_EXISTING_LONGER, D_DIR }; check_badsource((int)(i / 6), rd[i / 2 % 3], (int)(i % 2)); });
 		phase_done("copy_move");
 	}
+	// (g) content classes x sizes
+	if (!late("content classes"))
+	{
+		std::vector<CCJob> cj = cc_jobs(T);
+		vf::parallel(cj.size() * NCC_WRITER, [&](uint64_t i) { const CCJob& j = cj[(size_t)(i / NCC_WRITER)]; check_cc_read(j.cls, j.size, CC_WRITERS[i % NCC_WRITER]); });
+		phase_done("content_classes_readers");
+		static const int cd[] = { D_NEW, D_EXISTING_LONGER, D_DIR, D_EX_SAME, D_EX_LASTDIFF, D_EX_FIRSTDIFF, D_EX_MIDDIFF };
+		const int ncd = sizeof cd / sizeof *cd;
+		vf::parallel(cj.size() * 2, [&](uint64_t i) {
+			const CCJob& j = cj[(size_t)(i / 2)]; int api = (int)(i % 2);
+			for (int sp = 0; sp < 2; sp++) for (int di = 0; di < ncd; di++) {
+				check_copy(j.size, cd[di], api, j.cls, sp != 0);
+				check_move(j.size, cd[di], 0, api, j.cls, sp != 0);
+				check_move(j.size, cd[di], 1, api, j.cls, sp != 0);
+			}
+		});
+		phase_done("content_classes_copy_move");
+		std::string szl; for (int i = 0; i < (T ? (int)NCC_SIZE_ALL : (int)NCC_SIZE_QUICK); i++) szl += fmt(i ? ",%ld" : "%ld", CC_SIZES[i]);
+		vf::setinfo("content_classes", fmt("{\"classes\": %d, \"sizes\": [%s], \"distinct_contents\": %d, \"writers_incl_posix_dense_and_with_holes\": %d, \"destinations\": %d, \"copy_move_forms\": \"copy, move by rename, move by EXDEV fallback x 2 APIs x source dense / with holes\"}", (int)NCC, szl.c_str(), (int)cj.size(), (int)NCC_WRITER, ncd));
+	}
 	// (f) histories
 	{
 		vf::Bfs<HistSys> b(hs, "hist");
@@ -1199,6 +1412,9 @@ int main(int argc, char** argv) {
 	vf::sample("moverf: Directory::move of 131073 bytes when rename() answers EXDEV and the third fread of the copy loop fails with EISDIR -> the source must survive");
 	vf::sample("bomx: FE FF + (FE FF D8 3D DE 00) x 3000 (UTF-16BE, inner U+FEFF and U+1F600, 36002 bytes) -> text() == (EF BB BF F0 9F 98 80) x 3000");
 	vf::sample("line: line of 65536 chars + CR LF + 'tail' -> lines(), readLine loops, while(f.readLine(s)), text()");
+	vf::sample("ccc: Directory::copy of 131072 bytes (non-zero bytes, the last 65536 bytes zero) to a new file name -> 131072 bytes at the destination");
+	vf::sample("ccm: File::move of 65536 zero bytes stored with holes to an existing file of the same size that differs in the last byte, when rename() fails with EXDEV");
+	vf::sample("ccr: 262144 bytes 0A 1A FF 0D repeated, written by File f(p,APPEND); f.write x3 -> size, content, firstBytes, read() in chunks of n/255/4097/65536, text(), lines(), readLine loops, stat-data carriers");
 	vf::sample("hist: f.open(WRITE) ; f.put(String <4203 bytes>) ; f.open(APPEND) ; f.size() ; f.put(\"bf\"h)  (open on an open object with unflushed bytes, size of a writing object)");
 	return vf::finish();
 }
